@@ -249,12 +249,12 @@ def shards(tier, seed):
                          budget=900, prelude=["vf.chint"], desc="'[' + non-syntax character + one more"))
     # (b) inductive step
     if _CUT_ERROR is None:
-        quick_chars = ["\\", "'", ")", "=", "&", ".", "/"]
+        quick_chars = ["\\", "'", ")", "=", "&", ".", "/", "[", "]", "(", "!", "~", "*"]
         chars = SPECIALS if tier == "thorough" else quick_chars
         for c in chars:
             sidlen = 2 if c == "(" else 3
             if tier == "quick":
-                sidlen = 2
+                sidlen = 1 if c in ("(", "]") else 2
             budget = 1800 if c in ("]", "(") else 900
             out.append(_step_shard(_NAMES[c], repr(c), False, sidlen, budget))
         out.append(_step_shard("other", "char", True, 2 if tier == "quick" else 3, 900))
